@@ -360,6 +360,11 @@ def build(draw):
         H["Bo"] = [tract(None), setc({"__cfg_text": ctext}), parse()]
         pairs += [("A", "Ao", "final"), ("A", "Ak", "final"),
                   ("A", "Bo", "final")]
+        shared_cfg = {"__cfg_text": ctext + ",parse_qq", "shared": True}
+        H["As"] = [{"op": "other_tract", "config": shared_cfg,
+                    "kw": {"parse_qq": False}},
+                   tract(shared_cfg)]
+        pairs.append(("A2", "As", "final"))
         if len(sigma) >= 2:
             ks = list(sigma)
             s1 = {k: sigma[k] for k in ks[:1]}
@@ -406,6 +411,16 @@ def build(draw):
             # init keyword over the config string of the same init
             H["I3"] = [desc(txt(old, sep), **dict(base, **init3))]
             pairs.append(("A", "I3", "final"))
+            if "wait_to_parse" not in init3:
+                noop = "qq_depth_min.2" if "qq_depth_min" not in sigma \
+                    else "break_halves.False"
+                H["I3b"] = [desc(txt(old, sep), wait_to_parse=True,
+                                 **dict(base, **init3)),
+                            setc(noop), parse()]
+                H["I3c"] = [desc(txt(old, sep), wait_to_parse=True,
+                                 **dict(base, **init3)),
+                            setc(""), parse()]
+                pairs += [("A", "I3b", "final"), ("A", "I3c", "final")]
         tl = {k: v for k, v in sigma.items() if k in TRACT_LEVEL}
         if tl and len(tl) == len(sigma):
             H["R"] = [desc(None, parse_qq=True),
@@ -750,6 +765,12 @@ def run_history(ops):
                 out = {"ok": subj.preprocess(commit=op["commit"], **op["kw"])}
             elif kind == "deduce_layout":
                 out = {"ok": subj.deduce_layout()}
+            elif kind == "other_tract":
+                # another Tract built from the SAME Config object first,
+                # with an init keyword that disagrees with that Config
+                pytrs.Tract("Lots 1, 2", trs="1n1w01", config=op["config"],
+                            **op["kw"])
+                out = {"ok": None}
             elif kind == "other_object":
                 # another object built from the SAME (shared) Config first
                 pytrs.PLSSDesc(op["text"], config=op["config"])
